@@ -215,6 +215,30 @@ def check_tag_ops(args):
       if cfg.__arguments__:
         viols.append(dict(kinds=kinds, hasdef=hasdef, what='tag operation changed the arguments',
                           sig=sig.label, store=str(seq), op=op, tagops=True))
+  # tagged parameters that have no value yet (names and positional-only indices): set_tagged and
+  # select(tag=...).replace both give every one of them the value
+  for api in ('set_tagged', 'replace'):
+    evals += 1
+    cfg = fdl.Config(gen.make_fn(sig))
+    for key in keys:
+      fdl.add_tag(cfg, key, pool.TagA1)
+    marker = ['M']
+    try:
+      if api == 'set_tagged':
+        fdl.set_tagged(cfg, tag=pool.TagA, value=marker)
+      else:
+        selectors.select(cfg, tag=pool.TagA).replace(marker, deepcopy=False)
+    except Exception as e:   # pylint: disable=broad-except
+      viols.append(dict(kinds=kinds, hasdef=hasdef, what=f'{api} on tagged parameters without values raised '
+                        f'{type(e).__name__}: {str(e)[:80]}', sig=sig.label, store=api, op=api, tagops=True))
+      continue
+    for key in keys:
+      if cfg.__arguments__.get(key) is not marker:
+        viols.append(dict(kinds=kinds, hasdef=hasdef,
+                          what=f'{api}: parameter {key!r} is tagged and had no value; afterwards it holds '
+                               f'{cfg.__arguments__.get(key, fdl.NO_VALUE)!r}, not the value passed in',
+                          sig=sig.label, store=api, op=api, tagops=True))
+        break
   return evals, evals, viols, []
 
 
